@@ -499,3 +499,69 @@ Qed.
 
 Example sum_wait_default : sum_wait 200 7 7 = 15800 /\ sum_wait 500 3 3 = 2000.
 Proof. vm_compute. split; reflexivity. Qed.
+
+(** ---- no early give-up: TIMEOUT is never reported before the whole schedule (minus 1 ms per wait) has elapsed ---- *)
+Lemma sum_wait_step T N k : 1 <= k ->
+  sum_wait T N (Z.to_nat k) = sum_wait T N (Z.to_nat (k - 1)) + wait T N k.
+Proof.
+  intros Hk. replace (Z.to_nat k) with (S (Z.to_nat (k - 1))) by lia.
+  cbn [sum_wait]. replace (Z.of_nat (S (Z.to_nat (k - 1)))) with k by lia. reflexivity.
+Qed.
+
+Lemma sorted_from_nth last ps : sorted_from last ps ->
+  forall i q, nth_error ps i = Some q -> last <= us q.
+Proof.
+  revert last. induction ps as [|p ps IH]; intros last Hs i q Hq.
+  - destruct i; discriminate.
+  - destruct Hs as (Hp & Hle & Hs). destruct i as [|i]; cbn in Hq.
+    + inversion Hq; subst; exact Hle.
+    + specialize (IH (us p) Hs i q Hq). lia.
+Qed.
+
+Lemma sorted_from_weaken last last' ps : last' <= last -> sorted_from last ps -> sorted_from last' ps.
+Proof. intros Hl Hs. destruct ps as [|q ps]; [exact I|]. cbn [sorted_from] in *. destruct Hs as (A & B & C). split; [exact A|split; [lia|exact C]]. Qed.
+
+Lemma polls_timeout_time T N base : params_ok T N -> forall ps t last,
+  Inv T N t last -> sorted_from last ps ->
+  base + (sum_wait T N (Z.to_nat (retrans t - 1)) - (retrans t - 1)) * 1000 <= last ->
+  forall i p, nth_error ps i = Some p -> nth_error (fst (polls t ps)) i = Some TIMEOUT ->
+  base + (sum_wait T N (Z.to_nat (nmax N)) - nmax N) * 1000 < us p.
+Proof.
+  intros HP. induction ps as [|p ps IH]; intros t last HI Hs Hb i q Hq Hr.
+  - destruct i; discriminate.
+  - destruct Hs as (Hp & Hle & Hs).
+    pose proof (refresh_step T N t last p HP HI Hp Hle) as [S1 _]. cbn zeta in S1.
+    pose proof HI as [Hm Hrt Hd Hdl Hwf].
+    pose proof (sum_wait_step T N (retrans t) ltac:(lia)) as Hstep.
+    cbn [polls] in Hr.
+    destruct (refresh t p) as [t' r] eqn:ER. cbn [fst snd] in S1.
+    destruct (polls t' ps) as [rs tf] eqn:EP. cbn [fst] in Hr.
+    destruct r.
+    + destruct S1 as [-> _]. destruct i as [|i]; cbn in Hr, Hq; [discriminate|].
+      apply (IH t last HI (sorted_from_weaken _ _ _ Hle Hs) Hb i q Hq). rewrite EP. exact Hr.
+    + destruct S1 as (Hr1 & Hlt & HI' & Hk). destruct i as [|i]; cbn in Hr, Hq; [discriminate|].
+      apply (IH t' (us p) HI' Hs) with (i := i); [|exact Hq|rewrite EP; exact Hr].
+      rewrite Hk. replace (retrans t + 1 - 1) with (retrans t) by lia. rewrite Hstep. rewrite <- Hd. lia.
+    + destruct S1 as (-> & Hr1 & Hk).
+      assert (Hpb : base + (sum_wait T N (Z.to_nat (nmax N)) - nmax N) * 1000 < us p).
+      { rewrite <- Hk. rewrite Hstep. rewrite <- Hd. lia. }
+      destruct i as [|i]; cbn in Hq.
+      * inversion Hq; subst; exact Hpb.
+      * pose proof (sorted_from_nth _ _ Hs i q Hq). lia.
+Qed.
+
+Lemma no_early_timeout T N now0 ps i p :
+  params_ok T N -> wf_now now0 -> sorted_from (us now0) ps ->
+  nth_error ps i = Some p -> nth_error (fst (polls (timer_start now0 T N) ps)) i = Some TIMEOUT ->
+  us now0 + (sum_wait T N (Z.to_nat (nmax N)) - nmax N) * 1000 < us p.
+Proof.
+  intros HP Hn Hs Hq Hr.
+  apply (polls_timeout_time T N (us now0) HP ps (timer_start now0 T N) (us now0) (start_inv T N now0 HP Hn) Hs) with (i := i); auto.
+  change (retrans (timer_start now0 T N)) with 1. cbn. lia.
+Qed.
+
+Example no_early_timeout_nonvacuous :
+  fst (polls (timer_start {| sec := 0; usec := 0 |} 500 3)
+        [{| sec := 0; usec := 500000 |}; {| sec := 1; usec := 500000 |}; {| sec := 2; usec := 0 |}])
+  = [RETRANSMIT; RETRANSMIT; TIMEOUT] /\ (sum_wait 500 3 (Z.to_nat (nmax 3)) - nmax 3) * 1000 = 1997000.
+Proof. vm_compute. split; reflexivity. Qed.
